@@ -292,6 +292,11 @@ def text_variants_single(lines, kinds, max_sites=None):
         out.append(("T4-trailing", ("trail", i, "  ")))
         if not kinds[i][1]:
             out.append(("T4-leading", ("lead", i, "  ")))
+    # section title lines indented with a blank, blanks or a tab
+    for i in range(len(lines)):
+        if kinds[i][1] and lines[i].strip():
+            for pad, nm in ((" ", "blank"), ("   ", "blanks"), ("\t", "tab")):
+                out.append(("T4-leading-title-" + nm, ("lead", i, pad)))
     return out
 
 
